@@ -561,11 +561,12 @@ class C06(PropertyCheck):
         "label_connects", "label_connects_iff", "C06_counterexample_label",
         "phase_accumulated", "end_to_end_partial",
         "propagator_is_exponential", "rot_calibrated_exp", "iswap_calibrated_exp", "sqrtiswap_calibrated_exp",
-        "end_to_end_exp_partial", "end_to_end_pulses_partial", "end_to_end_pulses_scheduled_partial")] + [
+        "end_to_end_exp_partial", "end_to_end_pulses_partial", "end_to_end_pulses_scheduled_partial",
+        "end_to_end_pulses_model_partial")] + [
         # the composition lemmas behind end_to_end_pulses_partial (Lemmas/Compose*.lean)
         "QipVerif.Compose.sliceProd_eq_windows", "QipVerif.Compose.channels_sliceProd",
         "QipVerif.SpinChain.pulses_product", "QipVerif.SpinChain.compile_chanQubits",
-        "QipVerif.SpinChain.modelStarts_facts", "QipVerif.SpinChain.chain_chanJ", "QipVerif.SpinChain.pulses_product_sched"]
+        "QipVerif.SpinChain.compile_cast", "QipVerif.SpinChain.modelStarts_facts", "QipVerif.SpinChain.chain_chanJ", "QipVerif.SpinChain.pulses_product_sched"]
     technique = ("Lean 4: the compiler's formulas and tables regenerated from the source with ast into functions over an abstract "
                  "arithmetic, instantiated with R for the theorems and with Q for the compiled model driver; calibration "
                  "identities over C for every angle and strength, with the ideal propagator of a constant segment defined as "
@@ -606,7 +607,13 @@ class C06(PropertyCheck):
                   "respected dependencies, starts >= 0 and sorted non-overlapping channels are proved from C11.timetable_valid_tree "
                   "(integer durations over the common denominator transported to the rationals), the grouping loop provably "
                   "succeeds; remaining named hypotheses: some instruction carries a pulse, GapsResolved (every idle gap on a channel "
-                  "is 0 or above time_tol: C12.tolerance_counterexample shows it cannot be dropped), SepAll tol (C14). Partial: "
+                  "is 0 or above time_tol: C12.tolerance_counterexample shows it cannot be dropped), SepAll tol (C14). "
+                  "end_to_end_pulses_model_partial removes the rational-list hypothesis: it speaks about the Rat instance of the "
+                  "compiler model itself (compile (1:Rat) (evQr r): angles in units of pi, pi := 1, the instance drv_spinchain runs) "
+                  "and compile_cast proves that its instruction list cast to R is the list of the real-valued model, for every angle "
+                  "that is a rational multiple of pi (fixed parts multiples of pi/8, symbols valued at r_j*pi with r_j rational) and "
+                  "rational non-zero strengths; irrational strengths / other angles are outside; transpiled circuits with an IDLE gate "
+                  "are excluded (its argument is a time, not an angle). Partial: "
                   "that composition is about exact rational arithmetic (durations, coefficients and start times as rationals, no "
                   "float rounding) and takes the facts about the schedule as hypotheses: every idle gap on a channel is 0 or above "
                   "time_tol (C12 ValidG), instructions whose gates share a qubit are disjoint in time (GateDisjoint; compile_chanQubits "
